@@ -271,7 +271,16 @@ M("C16-twin-matmul", {"C16": None}, (_CM, "np.trace(np.dot(trained_inverse_covar
 M("C17-df-off-by-one", {"C17": "C17.R2"}, (_CM, "        (len(stacked_training_data) - len(model.clusters)) /", "        (len(stacked_training_data) - len(model.clusters) - 1) /"))
 M("C17-df-inverted", {"C17": "C17.R2"}, (_CM, "        (len(stacked_training_data) - len(model.clusters)) /\n         (len(model.clusters) - 1)", "        (len(model.clusters) - 1) /\n         (len(stacked_training_data) - len(model.clusters))"))
 M("C17-unweighted-between", {"C17": "C17.R2"}, (_CM, "        group_dispersion = cluster.size * (recentered_data_mean @ recentered_data_mean.T)", "        group_dispersion = (recentered_data_mean @ recentered_data_mean.T)"))
-M("C17-within-about-global", {"C17": "C17.R2"}, (_CM, "            recentered_point = (stacked_training_data[point_id] -\n                                cluster.stacked_data_mean).reshape(-1, 1)", "            recentered_point = (stacked_training_data[point_id] -\n                                global_center).reshape(-1, 1)"))
+M("C17-within-about-global", {"C17": "C17.R2"}, (_CM, "            recentered_point = (stacked_training_data[point_id] -\n                                cluster_mean).reshape(-1, 1)", "            recentered_point = (stacked_training_data[point_id] -\n                                global_center).reshape(-1, 1)"))
+# F10 (repaired by e357a88): the index must not go back to the mean stored by the statistics phase
+_OWN_MEAN = "        cluster_mean = np.mean(\n            stacked_training_data[cluster.member_points], axis=0)\n"
+M("C17-F10-stored-mean-again", {"C17": "C17.R6"}, (_CM, _OWN_MEAN, "        cluster_mean = cluster.stacked_data_mean\n"))
+M("C17-F10-stored-mean-between-only", {"C17": "C17.R6"}, (_CM, "        recentered_data_mean = (cluster_mean - global_center).reshape(-1, 1)", "        recentered_data_mean = (cluster.stacked_data_mean - global_center).reshape(-1, 1)"))
+M("C17-mean-of-all-rows", {"C17": "C17.R2"}, (_CM, _OWN_MEAN, "        cluster_mean = np.mean(stacked_training_data, axis=0)\n"))
+M("C17-mean-axis1", {"C17": "C17.R2"}, (_CM, _OWN_MEAN, "        cluster_mean = np.mean(\n            stacked_training_data[cluster.member_points], axis=1)\n"))
+M("C17-skip-singletons", {"C17": "C17.R2"}, (_CM, "        if cluster.size == 0:\n", "        if cluster.size <= 1:\n"))
+M("C17-twin-empty-guard-len", {"C17": None}, (_CM, "        if cluster.size == 0:\n", "        if not len(cluster.member_points) > 0:\n"))
+M("C17-twin-mean-method", {"C17": None}, (_CM, _OWN_MEAN, "        cluster_mean = stacked_training_data[cluster.member_points].mean(axis=0)\n"))
 M("C17-ratio-inverted", {"C17": "C17.R2"}, (_CM, "    dispersion_ratio = np.trace(numerator) / np.trace(denominator)", "    dispersion_ratio = np.trace(denominator) / np.trace(numerator)"))
 M("C17-centre-median", {"C17": "C17.R1"}, (_CM, "    global_center = np.mean(stacked_training_data)", "    global_center = np.median(stacked_training_data, axis=0)"))
 M("C17-centre-axis1", {"C17": "C17.R1"}, (_CM, "    global_center = np.mean(stacked_training_data)", "    global_center = np.mean(stacked_training_data, axis=1)"))
